@@ -28,7 +28,7 @@ var c02BodyCnt = map[c02Key]int64{}
 const (
 	c02OneBodyIf = 2 // 如果真 / 如果假
 	c02Loops     = 7 // 每当 (counter condition), 遍历 x5, 每当 (bare flag condition)
-	c02TwoBodyIf = 2
+	c02TwoBodyIf = 6 // 如果/否则 x 2 truth values, 如果/再如 (no 否则) x 4
 	c02ThreeBody = 4
 )
 
@@ -88,6 +88,7 @@ type c02Node struct {
 	conds  []bool
 	bodies [][]*c02Node
 	iter   int // 0..4 : list1 list2 dict2 novars empty
+	noElse bool // 如果 / 再如 with two bodies and no 否则
 }
 
 func c02UnrankBody(m, d int, loop bool, idx int64) []*c02Node {
@@ -147,8 +148,14 @@ func c02UnrankStmt(m, d int, loop bool, idx int64) *c02Node {
 		}
 		na, nb := c02Bodies(a, d-1, loop), c02Bodies(b, d-1, loop)
 		if idx < c02TwoBodyIf*na*nb {
-			cond := idx%2 == 0
-			idx /= 2
+			v := idx % c02TwoBodyIf
+			idx /= c02TwoBodyIf
+			if v >= 2 {
+				// 如果 / 再如 without 否则: a chain that can run no branch at all, and whose last
+				// block is a 再如 block (what follows it on a shallower line belongs to an outer chain)
+				return &c02Node{kind: "If", conds: []bool{(v-2)%2 == 0, (v-2)/2 == 0}, noElse: true, bodies: [][]*c02Node{c02UnrankBody(a, d-1, loop, idx%na), c02UnrankBody(b, d-1, loop, idx/na)}}
+			}
+			cond := v == 0
 			return &c02Node{kind: "If", conds: []bool{cond}, bodies: [][]*c02Node{c02UnrankBody(a, d-1, loop, idx%na), nil, c02UnrankBody(b, d-1, loop, idx/na)}}
 		}
 		idx -= c02TwoBodyIf * na * nb
@@ -259,6 +266,10 @@ func (b *c02Builder) stmt(n *c02Node) []zn.Stmt {
 		return []zn.Stmt{zn.Continue{}}
 	case "If":
 		s := zn.If{Cond: b.cond(n.conds[0]), Then: b.body(n.bodies[0], true)}
+		if n.noElse {
+			s.Elifs = []zn.Elif{{Cond: b.cond(n.conds[1]), Body: b.body(n.bodies[1], true)}}
+			return []zn.Stmt{s}
+		}
 		if len(n.bodies) == 3 {
 			if n.bodies[1] != nil {
 				s.Elifs = []zn.Elif{{Cond: b.cond(n.conds[1]), Body: b.body(n.bodies[1], true)}}
@@ -411,7 +422,7 @@ func init() {
 	mc.Register(&mc.Check{
 		ID:    "C02",
 		Level: "exploration",
-		Rule:  "E1 exhaustive by rank/unrank: every statement tree with <= k statement nodes and nesting <= 3 over {输出, expression, 结束循环, 继续循环 (inside loops only), 如果 (1/2/3 branches, every truth assignment), 每当 (2 passes via a dedicated counter; 2 passes via a bare flag variable that the body clears), 遍历 over [10,20] with 1/2/0 variables, over a dictionary with 2 variables, over an empty list}; every expression statement is followed by a method definition (hoisted, so the expression stays final); the two-variable list loop changes its index variable in place (自增) and traces it; a trace statement is planted before every statement and at the end of every block; each tree is run as program body and as method body; every tree of <= 4 (5 thorough) nodes that contains 结束循环 / 继续循环 is run again with each of them moved into a callee (a method whose own body executes the loop statement outside any loop of its own, called through a wrapper that handles the exception): it must act on no loop of the caller. Distinct by construction; non-trivial = contains at least one compound statement.",
+		Rule:  "E1 exhaustive by rank/unrank: every statement tree with <= k statement nodes and nesting <= 3 over {输出, expression, 结束循环, 继续循环 (inside loops only), 如果 (如果 | 如果/否则 | 如果/再如 | 如果/再如/否则, every truth assignment), 每当 (2 passes via a dedicated counter; 2 passes via a bare flag variable that the body clears), 遍历 over [10,20] with 1/2/0 variables, over a dictionary with 2 variables, over an empty list}; every expression statement is followed by a method definition (hoisted, so the expression stays final); the two-variable list loop changes its index variable in place (自增) and traces it; a trace statement is planted before every statement and at the end of every block; each tree is run as program body and as method body; every tree of <= 4 (5 thorough) nodes that contains 结束循环 / 继续循环 is run again with each of them moved into a callee (a method whose own body executes the loop statement outside any loop of its own, called through a wrapper that handles the exception): it must act on no loop of the caller. Distinct by construction; non-trivial = contains at least one compound statement.",
 		Assumptions: []string{
 			"reference interpreter written from manual ch.7/8 is the oracle (result + ordered trace)",
 			"the program result is compared only when the statement defines it (an 输出 ran, or the last top-level statement is an expression)",
